@@ -8,6 +8,7 @@ import (
 	cryptorand "crypto/rand"
 	"encoding/json"
 	"fmt"
+	"math/big"
 	"os"
 	"os/exec"
 	"strings"
@@ -70,8 +71,15 @@ type concOp struct {
 // buildConc constructs the fresh shared object of a kind and, for every
 // (goroutine, position), the operation to run with its own per-call arguments.
 // The same function run with shared=false gives the sequential reference.
+//
+// concPrelude is set by buildConc: calls on the freshly built shared object that FAIL (malformed request, invalid
+// signature). In every other repetition they run, one after the other, before the goroutines start: an error path
+// must leave the object as fit for concurrent use as it was.
+var concPrelude []func()
+
 func buildConc(seed int64, kind string, prog [][]string) [][]concOp {
 	ops := make([][]concOp, len(prog))
+	concPrelude = nil
 	fail := func(err error) []byte { return []byte("error: " + err.Error()) }
 	switch kind {
 	case "t1issuer", "t5issuer":
@@ -98,6 +106,24 @@ func buildConc(seed int64, kind string, prog [][]string) [][]concOp {
 			iss5 = type5.NewBatchedPrivateIssuer(key)
 		}
 		keyID := sha256Sum(pkBytes)
+		for k := 0; k < 3; k++ {
+			k := k
+			concPrelude = append(concPrelude, func() {
+				if t1 {
+					bad := &type1.BasicPrivateTokenRequest{TokenKeyID: keyID[31], BlindedReq: bytes.Repeat([]byte{0xff}, 49)}
+					if _, err := iss1.Evaluate(bad); err == nil {
+						panic("prelude: a non-point element was evaluated")
+					}
+					iss1.Verify(tokens.Token{TokenType: 1, Nonce: make([]byte, 32), Context: make([]byte, 32), KeyID: keyID, Authenticator: make([]byte, 48+k)})
+				} else {
+					bad := &type5.BatchedPrivateTokenRequest{TokenKeyID: keyID[31], BlindedReq: [][]byte{bytes.Repeat([]byte{0xff}, 32)}}
+					if _, err := iss5.Evaluate(bad); err == nil {
+						panic("prelude: a non-point element was evaluated")
+					}
+					iss5.Verify(tokens.Token{TokenType: 5, Nonce: make([]byte, 32), Context: make([]byte, 32), KeyID: keyID, Authenticator: make([]byte, 64+k)})
+				}
+			})
+		}
 		for g := range prog {
 			for i, name := range prog[g] {
 				challenge, nonce := hashBytes(seed, fmt.Sprintf("conc-ch-%d-%d", g, i), 16), hashBytes(seed, fmt.Sprintf("conc-n-%d-%d", g, i), 32)
@@ -185,6 +211,12 @@ func buildConc(seed int64, kind string, prog [][]string) [][]concOp {
 		}
 	case "t2issuer":
 		iss := type2.NewBasicPublicIssuer(rsaKey(0))
+		concPrelude = append(concPrelude, func() {
+			bad := &type2.BasicPublicTokenRequest{TokenKeyID: iss.TokenKeyID()[31], BlindedReq: bytes.Repeat([]byte{0xff}, 256)}
+			if _, err := iss.Evaluate(bad); err == nil {
+				panic("prelude: a message above the modulus was signed")
+			}
+		})
 		for g := range prog {
 			for i, name := range prog[g] {
 				challenge, nonce := hashBytes(seed, fmt.Sprintf("conc-ch-%d-%d", g, i), 16), hashBytes(seed, fmt.Sprintf("conc-n-%d-%d", g, i), 32)
@@ -220,6 +252,15 @@ func buildConc(seed int64, kind string, prog [][]string) [][]concOp {
 		}
 	case "t3issuer":
 		w := newT3World(rsaKey(1), seed, map[string]string{"origin.example": "a"})
+		concPrelude = append(concPrelude, func() {
+			w.issuer.Evaluate([]byte{0, 3, 1, 2, 3})
+			st, err := type3.NewRateLimitedClientFromSecret(p384Scalar(seed, "conc-client")).CreateTokenRequest([]byte("c"), make([]byte, 32),
+				p384Scalar(seed, "conc-blind-p"), w.issuer.TokenKeyID(), w.issuer.TokenKey(), "unknown.example", w.issuer.NameKey())
+			if err == nil {
+				w.issuer.Evaluate(st.Request().Marshal())                                           // unknown origin
+				w.issuer.Evaluate(flipBit(st.Request().Marshal(), 8*len(st.Request().Marshal())-3)) // bad signature
+			}
+		})
 		for g := range prog {
 			for i, name := range prog[g] {
 				var op concOp
@@ -322,7 +363,11 @@ func buildConc(seed int64, kind string, prog [][]string) [][]concOp {
 			x, y := curve.ScalarBaseMult(d.Bytes())
 			return &ecdsa.PrivateKey{PublicKey: ecdsa.PublicKey{Curve: curve, X: x, Y: y}, D: d}
 		}
-		sk, bk := mk("conc-sk"), mk("conc-bk")
+		sk, bk, sk2 := mk("conc-sk"), mk("conc-bk"), mk("conc-sk2")
+		concPrelude = append(concPrelude, func() {
+			ecdsa.Verify(&sk.PublicKey, []byte("digest"), big.NewInt(1), big.NewInt(1))
+			ecdsa.VerifyASN1(&sk.PublicKey, []byte("digest"), []byte{0x30, 0x03, 0x02, 0x01})
+		})
 		for g := range prog {
 			for i, name := range prog[g] {
 				d := hashBytes(seed, fmt.Sprintf("conc-d-%d-%d", g, i), 32)
@@ -338,8 +383,12 @@ func buildConc(seed int64, kind string, prog [][]string) [][]concOp {
 						return []byte(resBool(stdecdsa.Verify(stdPub(&sk.PublicKey), d, r, s)))
 					}
 				case "EcVerify":
-					r0, s0, _ := stdecdsa.Sign(cryptorand.Reader, &stdecdsa.PrivateKey{PublicKey: *stdPub(&sk.PublicKey), D: sk.D}, d)
-					op.run = func() []byte { return []byte(resBool(ecdsa.Verify(&sk.PublicKey, d, r0, s0))) }
+					vk := sk
+					if g%2 == 1 { // odd goroutines verify under another key: calls under different keys run at the same time
+						vk = sk2
+					}
+					r0, s0, _ := stdecdsa.Sign(cryptorand.Reader, &stdecdsa.PrivateKey{PublicKey: *stdPub(&vk.PublicKey), D: vk.D}, d)
+					op.run = func() []byte { return []byte(resBool(ecdsa.Verify(&vk.PublicKey, d, r0, s0))) }
 				case "EcBlind":
 					op.run = func() []byte {
 						p, err := ecdsa.BlindPublicKeyWithContext(curve, &sk.PublicKey, bk, ctx)
@@ -364,6 +413,13 @@ func buildConc(seed int64, kind string, prog [][]string) [][]concOp {
 	case "edkey", "edfirst":
 		priv := ed25519.PrivateKey(stded.NewKeyFromSeed(hashBytes(seed, "conc-ed-seed", 32)))
 		pub := ed25519.PublicKey(append([]byte{}, priv[32:]...))
+		pub2 := ed25519.PublicKey(append([]byte{}, stded.NewKeyFromSeed(hashBytes(seed, "conc-ed-seed2", 32))[32:]...))
+		if kind == "edkey" { // (not in the first-use kind: nothing of the package may run before the goroutines)
+			concPrelude = append(concPrelude, func() {
+				ed25519.Verify(pub, []byte("m"), make([]byte, 64))
+				ed25519.Verify(bytes.Repeat([]byte{0xff}, 32), []byte("m"), make([]byte, 64))
+			})
+		}
 		blind := hashBytes(seed, "conc-ed-blind", 32)
 		for g := range prog {
 			for i, name := range prog[g] {
@@ -374,8 +430,12 @@ func buildConc(seed int64, kind string, prog [][]string) [][]concOp {
 				case "EdSign":
 					op.run = func() []byte { return ed25519.Sign(priv, msg) }
 				case "EdVerify":
-					sig := stded.Sign(stded.NewKeyFromSeed(hashBytes(seed, "conc-ed-seed", 32)), msg)
-					op.run = func() []byte { return []byte(resBool(ed25519.Verify(pub, msg, sig))) }
+					seedName, vpub := "conc-ed-seed", pub
+					if g%2 == 1 { // odd goroutines verify under another key
+						seedName, vpub = "conc-ed-seed2", pub2
+					}
+					sig := stded.Sign(stded.NewKeyFromSeed(hashBytes(seed, seedName, 32)), msg)
+					op.run = func() []byte { return []byte(resBool(ed25519.Verify(vpub, msg, sig))) }
 				case "EdBlind":
 					op.run = func() []byte {
 						p, err := ed25519.BlindPublicKeyWithContext(pub, blind[:32:32], ctx)
@@ -440,6 +500,11 @@ func execConcurrency(c *ctx, in ev) []ev {
 		}
 		for rep := 0; rep < reps; rep++ {
 			ops := buildConc(c.seed, kind, prog) // a freshly constructed shared object, first use is concurrent
+			if rep%2 == 1 && !first {
+				for _, f := range concPrelude { // ... in every other repetition after a few failing calls
+					f()
+				}
+			}
 			got := make([][][]byte, len(ops))
 			start := make(chan struct{})
 			var wg sync.WaitGroup
